@@ -298,39 +298,27 @@ theorem SimS.trans {s s' s'' : JS} (h : SimS s s') (h' : SimS s' s'') : SimS s s
   ⟨h.cell.trans h'.cell, h.com.trans h'.com, h.base.trans h'.base, h.next.trans h'.next, h.rz.trans h'.rz, h.logs.trans h'.logs⟩
 
 theorem contentChanged_iff (s : JS) (a t : Nat) :
-    contentChanged s a t = true ↔
-      if s.rootZero a t = true then ∃ e, touched s.logs a t e
-      else ∃ e, touched s.logs a t e ∧ s.cell a t e ≠ s.com a t e := by
+    contentChanged s a t = true ↔ ∃ t' e, touched s.logs a t' e ∧ slotChanged s a t t' e = true := by
   unfold contentChanged touched
-  split
-  · rw [List.any_eq_true]
-    constructor
-    · rintro ⟨l, hl, h⟩
-      simp only [Bool.and_eq_true, beq_iff_eq] at h
-      exact ⟨l.extra, l, hl, h.1, h.2, rfl⟩
-    · rintro ⟨e, l, hl, h1, h2, _⟩
-      refine ⟨l, hl, ?_⟩
-      simp only [Bool.and_eq_true, beq_iff_eq]
-      exact ⟨h1, h2⟩
-  · rw [List.any_eq_true]
-    constructor
-    · rintro ⟨l, hl, h⟩
-      simp only [Bool.and_eq_true, beq_iff_eq, bne_iff_ne, ne_eq] at h
-      exact ⟨l.extra, ⟨l, hl, h.1.1, h.1.2, rfl⟩, h.2⟩
-    · rintro ⟨e, ⟨l, hl, h1, h2, h3⟩, h4⟩
-      refine ⟨l, hl, ?_⟩
-      simp only [Bool.and_eq_true, beq_iff_eq, bne_iff_ne, ne_eq]
-      exact ⟨⟨h1, h2⟩, by rw [h3]; exact h4⟩
+  rw [List.any_eq_true]
+  constructor
+  · rintro ⟨l, hl, h⟩
+    simp only [Bool.and_eq_true, beq_iff_eq] at h
+    exact ⟨l.ty, l.extra, ⟨l, hl, h.1, rfl, rfl⟩, h.2⟩
+  · rintro ⟨t', e, ⟨l, hl, h1, h2, h3⟩, h4⟩
+    refine ⟨l, hl, ?_⟩
+    simp only [Bool.and_eq_true, beq_iff_eq]
+    exact ⟨h1, by rw [h2, h3]; exact h4⟩
+
+theorem slotChanged_sim {s s' : JS} (h : SimS s s') (a t t' e : Nat) : slotChanged s a t t' e = slotChanged s' a t t' e := by
+  unfold slotChanged pending differs JS.rz
+  rw [h.cell, h.com, h.rz]
 
 theorem contentChanged_sim {s s' : JS} (h : SimS s s') (a t : Nat) : contentChanged s a t = contentChanged s' a t := by
-  rw [Bool.eq_iff_iff, contentChanged_iff, contentChanged_iff, h.cell, h.com, h.rz]
-  split
-  · constructor
-    · rintro ⟨e, ht⟩; exact ⟨e, (h.logs.keys a t e).mp ht⟩
-    · rintro ⟨e, ht⟩; exact ⟨e, (h.logs.keys a t e).mpr ht⟩
-  · constructor
-    · rintro ⟨e, ht, hc⟩; exact ⟨e, (h.logs.keys a t e).mp ht, hc⟩
-    · rintro ⟨e, ht, hc⟩; exact ⟨e, (h.logs.keys a t e).mpr ht, hc⟩
+  rw [Bool.eq_iff_iff, contentChanged_iff, contentChanged_iff]
+  constructor
+  · rintro ⟨t', e, ht, hc⟩; exact ⟨t', e, (h.logs.keys a t' e).mp ht, by rw [← slotChanged_sim h]; exact hc⟩
+  · rintro ⟨t', e, ht, hc⟩; exact ⟨t', e, (h.logs.keys a t' e).mpr ht, by rw [slotChanged_sim h]; exact hc⟩
 
 theorem finStep_sim {s s' : JS} (h : SimS s s') : finStep s = finStep s' := by
   funext acc a
